@@ -41,9 +41,27 @@ class ListSpacing(str, Enum):
 
 def _normalize_title_quotes(title: str) -> str:
     """
-    Normalize title quotes.
+    Render a link or image title (given as its plain text, without delimiters or escapes)
+    in double quotes, escaping the double quotes it contains.
     """
-    escaped = title.strip('"').replace('"', '\\"')
+    escaped = title.replace('"', '\\"')
+    return f'"{escaped}"'
+
+
+def _normalize_raw_title(raw_title: str) -> str:
+    """
+    Normalize the title of a link reference definition, which Marko keeps as written:
+    with its delimiters (double quotes, single quotes or parentheses) and escapes.
+    """
+    if len(raw_title) >= 2 and raw_title[0] == '"' and raw_title[-1] == '"':
+        return raw_title
+    if len(raw_title) >= 2 and raw_title[0] == "'" and raw_title[-1] == "'":
+        inner = raw_title[1:-1].replace("\\'", "'")
+    elif len(raw_title) >= 2 and raw_title[0] == "(" and raw_title[-1] == ")":
+        inner = raw_title[1:-1].replace("\\(", "(").replace("\\)", ")")
+    else:
+        inner = raw_title
+    escaped = re.sub(r'(?<!\\)"', '\\\\"', inner)
     return f'"{escaped}"'
 
 
@@ -535,7 +553,7 @@ class MarkdownNormalizer(Renderer):
         """
         link_text = element.dest
         if element.title:
-            link_text += f" {_normalize_title_quotes(element.title)}"
+            link_text += f" {_normalize_raw_title(element.title)}"
         result = f"{self._prefix}[{element.label}]: {link_text}\n"
         self._prefix = self._second_prefix
         self._suppress_item_break = True
